@@ -9,6 +9,94 @@
 
 package stanza
 
+// ---------------------------------------------------------------------------
+// C13: stanzas encode consistently (start elements, replies)
+
+//@ spec hasAttr(attrs []xml.Attr, space string, local string, val string) bool = exists k int :: 0 <= k && k < len(attrs) && attrs[k].Name.Space == space && attrs[k].Name.Local == local && attrs[k].Value == val
+//@ spec noAttr(attrs []xml.Attr, local string) bool = forall k int :: 0 <= k && k < len(attrs) ==> attrs[k].Name.Local != local
+//@ spec zeroJID(j jid.JID) bool = j.locallen == 0 && j.domainlen == 0 && len(j.data) == 0
+
+// The start element of a stanza carries its kind, namespace, type and exactly
+// the non-empty addressing attributes.
+//@ func (IQ).StartElement
+//@   ghost toStr string
+//@   ghost fromStr string
+//@   callsite (mellium.im/xmpp/jid.JID).String#1
+//@     after: toStr = ret0
+//@   callsite (mellium.im/xmpp/jid.JID).String#2
+//@     after: fromStr = ret0
+//@   ensures[C13] result.Name.Local == "iq" && result.Name.Space == iq.XMLName.Space
+//@   ensures[C13] hasAttr(result.Attr, "", "type", string(iq.Type))
+//@   ensures[C13] zeroJID(iq.To) <==> noAttr(result.Attr, "to")
+//@   ensures[C13] !zeroJID(iq.To) ==> hasAttr(result.Attr, "", "to", toStr)
+//@   ensures[C13] zeroJID(iq.From) <==> noAttr(result.Attr, "from")
+//@   ensures[C13] !zeroJID(iq.From) ==> hasAttr(result.Attr, "", "from", fromStr)
+//@   ensures[C13] iq.ID == "" <==> noAttr(result.Attr, "id")
+//@   ensures[C13] iq.ID != "" ==> hasAttr(result.Attr, "", "id", iq.ID)
+//@   ensures[C13] iq.Lang == "" <==> noAttr(result.Attr, "lang")
+//@   ensures[C13] iq.Lang != "" ==> hasAttr(result.Attr, "http://www.w3.org/XML/1998/namespace", "lang", iq.Lang)
+//@   ensures[C13] len(result.Attr) <= 5
+
+//@ func (Message).StartElement
+//@   ghost toStr string
+//@   ghost fromStr string
+//@   callsite (mellium.im/xmpp/jid.JID).String#1
+//@     after: toStr = ret0
+//@   callsite (mellium.im/xmpp/jid.JID).String#2
+//@     after: fromStr = ret0
+//@   ensures[C13] result.Name.Local == "message" && result.Name.Space == msg.XMLName.Space
+//@   ensures[C13] hasAttr(result.Attr, "", "type", string(msg.Type))
+//@   ensures[C13] zeroJID(msg.To) <==> noAttr(result.Attr, "to")
+//@   ensures[C13] !zeroJID(msg.To) ==> hasAttr(result.Attr, "", "to", toStr)
+//@   ensures[C13] zeroJID(msg.From) <==> noAttr(result.Attr, "from")
+//@   ensures[C13] !zeroJID(msg.From) ==> hasAttr(result.Attr, "", "from", fromStr)
+//@   ensures[C13] msg.ID == "" <==> noAttr(result.Attr, "id")
+//@   ensures[C13] msg.ID != "" ==> hasAttr(result.Attr, "", "id", msg.ID)
+//@   ensures[C13] msg.Lang == "" <==> noAttr(result.Attr, "lang")
+//@   ensures[C13] msg.Lang != "" ==> hasAttr(result.Attr, "http://www.w3.org/XML/1998/namespace", "lang", msg.Lang)
+//@   ensures[C13] len(result.Attr) <= 5
+
+//@ func (Presence).StartElement
+//@   ghost toStr string
+//@   ghost fromStr string
+//@   callsite (mellium.im/xmpp/jid.JID).String#1
+//@     after: toStr = ret0
+//@   callsite (mellium.im/xmpp/jid.JID).String#2
+//@     after: fromStr = ret0
+//@   ensures[C13] result.Name.Local == "presence" && result.Name.Space == p.XMLName.Space
+//@   ensures[C13] p.Type == "" <==> noAttr(result.Attr, "type")
+//@   ensures[C13] p.Type != "" ==> hasAttr(result.Attr, "", "type", string(p.Type))
+//@   ensures[C13] zeroJID(p.To) <==> noAttr(result.Attr, "to")
+//@   ensures[C13] !zeroJID(p.To) ==> hasAttr(result.Attr, "", "to", toStr)
+//@   ensures[C13] zeroJID(p.From) <==> noAttr(result.Attr, "from")
+//@   ensures[C13] !zeroJID(p.From) ==> hasAttr(result.Attr, "", "from", fromStr)
+//@   ensures[C13] p.ID == "" <==> noAttr(result.Attr, "id")
+//@   ensures[C13] p.ID != "" ==> hasAttr(result.Attr, "", "id", p.ID)
+//@   ensures[C13] p.Lang == "" <==> noAttr(result.Attr, "lang")
+//@   ensures[C13] p.Lang != "" ==> hasAttr(result.Attr, "http://www.w3.org/XML/1998/namespace", "lang", p.Lang)
+//@   ensures[C13] len(result.Attr) <= 5
+
+
+// Replies and errors swap the addresses and set the kind; everything else is
+// taken over unchanged.
+//@ func (IQ).Result
+//@   callsite (IQ).Wrap#1
+//@     assert[C13] arg0.Type == "result" && arg0.To == iq.From && arg0.From == iq.To && arg0.ID == iq.ID && arg0.Lang == iq.Lang && arg0.XMLName == iq.XMLName && arg1 == payload
+//@ func (IQ).Error
+//@   callsite (IQ).Wrap#1
+//@     assert[C13] arg0.Type == "error" && arg0.To == iq.From && arg0.From == iq.To && arg0.ID == iq.ID && arg0.Lang == iq.Lang && arg0.XMLName == iq.XMLName
+//@ func (Message).Error
+//@   callsite (Message).Wrap#1
+//@     assert[C13] arg0.Type == "error" && arg0.To == msg.From && arg0.From == msg.To && arg0.ID == msg.ID && arg0.Lang == msg.Lang && arg0.XMLName == msg.XMLName
+//@ func (Presence).Error
+//@   callsite (Presence).Wrap#1
+//@     assert[C13] arg0.Type == "error" && arg0.To == p.From && arg0.From == p.To && arg0.ID == p.ID && arg0.Lang == p.Lang && arg0.XMLName == p.XMLName
+
+// Type fields serialise to themselves when they are one of the defined
+// constants.
+//@ func (MessageType).MarshalText
+//@   ensures[C13] (t == "normal" || t == "chat" || t == "error" || t == "groupchat" || t == "headline") ==> len(result0) == len(t) && (forall i int :: 0 <= i && i < len(t) ==> result0[i] == t[i]) && result1 == nil
+
 // BEGIN enrolment C09 (generated by the safety sweep: every safety obligation of these functions is discharged)
 //@ nopanic [C09] (*Error).UnmarshalXML
 //@ nopanic [C09] (Error).Error
